@@ -257,7 +257,7 @@ func (h *hist) planHook(o *obs) (at int64, fn func()) {
 	case x < 40 || (!mock && x < 75):
 		o.hook = "split"
 		fn = func() {
-			if h.u.SplitAt(pt) {
+			if h.u.C05SplitAt(pt) {
 				o.hookDone.Store(true)
 				h.topo.split.Add(1)
 			}
@@ -265,7 +265,7 @@ func (h *hist) planHook(o *obs) (at int64, fn func()) {
 	case x < 58 && mock:
 		o.hook = "merge"
 		fn = func() {
-			if h.u.MergeAt(key) {
+			if h.u.C05MergeAt(key) {
 				o.hookDone.Store(true)
 				h.topo.merge.Add(1)
 			}
@@ -273,7 +273,7 @@ func (h *hist) planHook(o *obs) (at int64, fn func()) {
 	case x < 75 && mock:
 		o.hook = "move-leader"
 		fn = func() {
-			if h.u.MoveLeader(key, pick) {
+			if h.u.C05MoveLeader(key, pick) {
 				o.hookDone.Store(true)
 				h.topo.move.Add(1)
 			}
